@@ -230,7 +230,7 @@ func c13Body(c *ev.Ctx) {
 			// connection set-up, clients and server start-up/shut-down belong to C14
 			MaxChoiceDev: 1,
 			Filter: func(p *vsched.Point, alt int) bool {
-				return strings.HasPrefix(p.Label, "choose:") || (strings.HasPrefix(p.Running, "conn-") && strings.HasPrefix(p.Enabled[alt], "conn-"))
+				return strings.HasPrefix(p.Label, "choose:") || (sutThread(p.Running) && sutThread(p.Enabled[alt]))
 			}}
 		e.OnFailure = func(choices []int, s *vsched.Sched, f *vsched.Failure) {
 			if f.Kind == "replay-divergence" {
@@ -342,4 +342,10 @@ func c13RacePass(c *ev.Ctx) (runs int, reports int, msg string) {
 		return runs, 0, "race pass program failed (not judged): " + tailStr(se.Bytes())
 	}
 	return runs, reports, msg
+}
+
+// sutThread: a thread of the code under check (a connection's handler, anything it spawned, a goroutine
+// the packages start from init()), as opposed to the harness's clients and scrapers.
+func sutThread(name string) bool {
+	return strings.HasPrefix(name, "conn-") || strings.HasPrefix(name, "daemon")
 }
